@@ -331,6 +331,18 @@ const MY_ORDER: &[u8] = b"i";
 #[cfg(not(feature = "po"))]
 const MY_ORDER: &[u8] = b"s";
 
+/// the shape of a text printed by `Display for toml::Value`, read as a toml_edit value
+fn disp_shape(text: &str) -> String {
+    match text.parse::<toml_edit::Value>() {
+        Ok(x) => {
+            let mut s = String::new();
+            shape_of(&x, &mut s);
+            s
+        }
+        Err(_) => "UNREADABLE".to_string(),
+    }
+}
+
 fn cmd_val(args: &Args) -> String {
     if args.len() != 2 {
         return "bad-args".to_string();
@@ -344,10 +356,12 @@ fn cmd_val(args: &Args) -> String {
         _ => return "bad-tree".to_string(),
     };
     let Value::Table(t) = &v else {
-        return match toml::to_string(&v) {
-            Ok(_) => "not-a-table:ok".to_string(),
-            Err(_) => "not-a-table:err".to_string(),
-        };
+        // a lone value: no document (a document is a table); Display for Value prints the value itself
+        return format!(
+            "not-a-table:{} vdisp={}",
+            if toml::to_string(&v).is_ok() { "ok" } else { "err" },
+            disp_shape(&v.to_string())
+        );
     };
     let (Ok(text), Ok(ptext)) = (toml::to_string(&v), toml::to_string_pretty(&v)) else {
         return "ser-error".to_string();
@@ -407,21 +421,17 @@ fn cmd_val(args: &Args) -> String {
         }
         Err(_) => false,
     };
-    let vd = match vdisp.parse::<toml_edit::Value>() {
-        Ok(x) => {
-            let mut s = String::new();
-            shape_of(&x, &mut s);
-            s
-        }
-        Err(_) => "UNREADABLE".to_string(),
-    };
+    let vd = disp_shape(&vdisp);
+    // Display of every entry of the root table taken by itself (`table["k"].to_string()`), in the map's order
+    let ed: Vec<String> = t.iter().map(|(_, e)| disp_shape(&e.to_string())).collect();
     format!(
-        "vdoc={} pdoc={} tdoc={} sdoc={} vdisp={} rb={} fix={} pp={} dec={} tfix={} sdec={} s2fix={} det={} # text={} ptext={} ttext={} stext={}",
+        "vdoc={} pdoc={} tdoc={} sdoc={} vdisp={} edisp={} rb={} fix={} pp={} dec={} tfix={} sdec={} s2fix={} det={} # text={} ptext={} ttext={} stext={}",
         show_doc(&text),
         show_doc(&ptext),
         show_doc(&ttext),
         show_doc(&stext),
         vd,
+        ed.join(","),
         rb,
         flag(fix),
         flag(pp),
